@@ -70,6 +70,10 @@ func genC19(seed uint64, tier string) *plan.Plan {
 			if r.IntN(8) == 0 {
 				op.S = "bare"
 			}
+			if r.IntN(4) == 0 {
+				// one of two recurring exporters; its counter: large, small, wrapped, restarted
+				op.N = []int64{int64(1 + r.IntN(2)), []int64{4294967295, 4294967290, 0, 1, 5, 1000, 70000}[r.IntN(7)]}
+			}
 			pl.Ops = append(pl.Ops, op)
 		}
 		if r.IntN(4) == 0 {
@@ -119,7 +123,7 @@ type c19Rec struct {
 // bare: a message assembled by the application itself rather than by a collecting process - header
 // fields left at zero, no export address - whose records carry no address elements; about half of
 // them hold nothing but zeros and empty strings (every mapped field at its default).
-func c19Data(seed int64, nrec int, v6 bool, poisonAt int, bare bool) (*entities.Message, []c19Rec) {
+func c19Data(seed int64, nrec int, v6 bool, poisonAt int, bare bool, hdr ...int64) (*entities.Message, []c19Rec) {
 	r := rand.New(rand.NewPCG(uint64(seed), 0x19))
 	A, I := registry.AntreaEnterpriseID, registry.IANAEnterpriseID
 	msg := entities.NewMessage(true)
@@ -128,6 +132,18 @@ func c19Data(seed int64, nrec int, v6 bool, poisonAt int, bare bool) (*entities.
 	addr := fmt.Sprintf("10.9.%d.%d", r.IntN(250), r.IntN(250))
 	if v6 {
 		addr = fmt.Sprintf("fd00::%x", 1+r.IntN(60000))
+	}
+	if len(hdr) == 2 && !bare {
+		// the message comes from an exporter that sent before (same address, same observation domain):
+		// its sequence number is whatever that exporter's counter says - smaller than last time after a
+		// restart or a wrap-around
+		hr := rand.New(rand.NewPCG(uint64(hdr[0]), 0x1d))
+		dom = hr.Uint32()
+		addr = fmt.Sprintf("10.8.%d.%d", hr.IntN(250), hr.IntN(250))
+		if v6 {
+			addr = fmt.Sprintf("fd08::%x", 1+hr.IntN(60000))
+		}
+		sq = uint32(hdr[1])
 	}
 	if bare {
 		et, sq, dom, addr = 0, 0, 0, ""
@@ -315,7 +331,7 @@ func runC19(pl *plan.Plan, out *plan.Outcome) {
 				m = c19Template(op.C)
 			} else {
 				var recs []c19Rec
-				m, recs = c19Data(op.C, int(op.B), op.D == 1, int(op.T)-1, op.S == "bare")
+				m, recs = c19Data(op.C, int(op.B), op.D == 1, int(op.T)-1, op.S == "bare", op.N...)
 				expected = append(expected, recs...)
 			}
 			Block("feed", func() { msgCh <- m })
